@@ -20,6 +20,11 @@ def history_features(case, F):
             tmo.add(kw.get("timeout", 10 if (o["op"] == "get_reusable" or o["a"].get("kind") == "reusable") else None))
     feats["finite_timeout"] = any(t is not None for t in tmo)
     feats["resize"] = any(o["op"] == "get_reusable" for o in ops)
+    ctxs = set()
+    for o in ops:
+        if o["op"] in ("new", "get_reusable"):
+            ctxs.add((o.get("a", {}).get("kw") or {}).get("context") or "loky")
+    feats["start_method"] = sorted(ctxs)[0] if len(ctxs) == 1 else ("mixed" if ctxs else None)
     te = [t for t in F.thread_exceptions if t["pid"] == F.driver_pid]
     mgr = [t for t in te if str(t.get("thread", "")).startswith("ExecutorManagerThread")]
     feats["mgr_exception"] = mgr[0]["etype"] if mgr else None
